@@ -10,6 +10,14 @@ CHECKS = {
    text="Every decode/decode_partial/specialize body the Rust backend emits for the corpus is abstractly interpreted "
         "for ALL byte strings: each trap-capable operation is an obligation proved from dominating guards; generator "
         "is only run to produce the subject, emitted code is never executed.", ref="7/C01"),
+ "C05": dict(level="other", technique="abstract interpretation of emitted Rust encoders (intervals over Rust types, bit provenance, symbolic byte count)",
+   text="Every encode/encode_partial body emitted for the corpus is abstractly interpreted for ALL values of the generated "
+        "types: narrowing casts, put_uint widths, shifts and ORs must be loss-free under dominating guards, nothing may "
+        "trap, and the byte count of the Ok path equals encoded_len() as polynomials.", ref="7/C05"),
+ "C15": dict(level="translation_validation", technique="interval-set semantics of generated match arms vs reference enum table",
+   text="Per enum the generated TryFrom/From conversion functions are computed as functions on the whole backing-type "
+        "domain (first-match interval sweep) and compared segment by segment with the reference model: exhaustive over "
+        "all integers per enum.", ref="7/C15"),
 }
 NOT_APPLICABLE = {
  "C19": "Java backend: no Java front-end to the abstract interpreter can be built and validated in this sandbox "
